@@ -8,6 +8,7 @@ import (
 	"encoding/hex"
 	"errors"
 	"fmt"
+	"io"
 	"os"
 	"strings"
 
@@ -31,10 +32,32 @@ func hx(b []byte) string {
 
 var tl2opts = tlast.LexerOptions{LexerLanguage: tlast.TL2}
 
+// printAll prints the error every way a caller can (Error() of the returned error and of the *ParseError, ConsolePrint and
+// PrintWarning with a nil and with a non-nil outmost error); a panic in any of them is reported as "panic print".
+func printAll(err error, pe *tlast.ParseError) (res string) {
+	defer func() {
+		if r := recover(); r != nil {
+			res = "panic print"
+		}
+	}()
+	_ = err.Error()
+	_ = pe.Error()
+	_ = pe.Unwrap()
+	pe.ConsolePrint(io.Discard, nil, false)
+	pe.ConsolePrint(io.Discard, nil, true)
+	pe.ConsolePrint(io.Discard, err, false)
+	pe.PrintWarning(io.Discard, nil)
+	pe.PrintWarning(io.Discard, err)
+	return ""
+}
+
 func errLine(err error) string {
 	var pe *tlast.ParseError
 	if !errors.As(err, &pe) {
 		return "err other"
+	}
+	if r := printAll(err, pe); r != "" {
+		return r
 	}
 	var sb strings.Builder
 	pe.ConsolePrint(&sb, errors.New("E"), false)
